@@ -112,7 +112,36 @@ let handle (f : string array) : string =
                  | Ok s -> "ok " ^ hex_of_bytes v ^ " " ^ s
                  | Err _ -> "err parse" | Panic -> "PANIC" | Hang -> "HANG") in
     let omap f o = match o with Ok x -> Ok (f x) | Err e -> Err e | Panic -> Panic | Hang -> Hang in
+    let elem_of (h : string) : n * n list =
+      match read_tlv (bytes_of_hex h) with
+      | Some ((id, c), _) -> (id, c)
+      | None -> failwith "bad element" in
+    let z_of_dec (s : string) : z =
+      (* decimal string of any size -> Z, by Horner on binary Z *)
+      let neg = String.length s > 0 && s.[0] = '-' in
+      let digits = if neg then String.sub s 1 (String.length s - 1) else s in
+      let ten = z_of_int 10 in
+      let v = ref Z0 in
+      String.iter (fun ch -> v := Z.add (Z.mul !v ten) (z_of_int (Char.code ch - 48))) digits;
+      if neg then Z.opp !v else !v in
+    let exts_of (s : string) : crl_ext list =
+      List.map (fun e -> match String.split_on_char '!' e with
+        | [o; c; v] -> { x_id = List.hd (oids_of o); x_crit = (c = "1"); x_val = bytes_of_hex v }
+        | _ -> failwith "bad ext") (split_on '+' s) in
     (match f.(2) with
+     | "tbs" ->
+       let rl = (f.(3) = "rl") in
+       let ski = bytes_of_hex f.(8) in
+       let entries = List.map (fun e -> match String.split_on_char ';' e with
+         | [ser; tm; xs] -> { en_serial = z_of_dec ser; en_time = elem_of tm; en_exts = exts_of xs }
+         | _ -> failwith "bad entry") (split_on ',' f.(10)) in
+       let exts = if rl then revocation_list_exts ski (z_of_dec f.(9)) (exts_of f.(11)) else create_crl_exts ski in
+       let t = { t_alg = elem_of f.(4); t_issuer = elem_of f.(5); t_this = elem_of f.(6);
+                 t_next = (if f.(7) = "-" then None else Some (elem_of f.(7))); t_entries = entries; t_exts = exts } in
+       let v = build_tbs_raw (not rl) t in
+       (match parse_tbs_raw v with
+        | Ok t' when t' = t -> "ok " ^ hex_of_bytes v
+        | _ -> "ok " ^ hex_of_bytes v ^ " MODEL-ROUNDTRIP-FAILS")
      | "san" ->
        finish (Ok (marshalSANs_model (hexlist f.(3)) (hexlist f.(4)) (hexlist f.(5))))
          (fun v -> omap (fun ((d, e), i) -> hl d ^ " " ^ hl e ^ " " ^ hl i) (parseSANExtension_model v))
